@@ -15,6 +15,7 @@ import (
 // timestamp before looking at the series only as out of bounds, and only with out-of-order ingestion disabled.
 func runC02Admit(c *eng.Ctx) {
 	p := c.P
+	defer runC02Stale(c)
 	per := map[string]bool{"tsdb:memSeries.appendable": true, "tsdb:memSeries.appendableHistogram": true, "tsdb:memSeries.appendableFloatHistogram": true}
 	sites := map[string][]string{}
 	type occ struct{ in, pos, cond string }
@@ -54,4 +55,48 @@ func runC02Admit(c *eng.Ctx) {
 		c.Check("R7", o.in, "a timestamp is refused as out of bounds before the series is looked at only when out-of-order ingestion is off and t is below the appender's minimum ("+o.pos+")", strings.Contains(o.cond, "a.oooTimeWindow == 0 && t < a.minValidTime=T"), o.pos, "conditions: "+o.cond)
 	}
 	c.Check("R7", "tsdb", "appenders with the out-of-bounds fast path (≥ 3)", len(oob) >= 3, "", fmt.Sprint(len(oob)))
+}
+
+// C02.R8 (finding F54): at commit a float staleness marker of a series whose last sample is a histogram is converted
+// and put at the END of the batch's histograms.  That is in append order only if no histogram of the same series,
+// appended after the marker, sits in the same batch; the batch logic does not track floats, so every append path that
+// can queue a stale float has to register it (noteStaleFloat), which makes a following histogram start a new batch.
+func runC02Stale(c *eng.Ctx) {
+	p := c.P
+	n := 0
+	for _, fn := range []string{"tsdb:headAppender.Append", "tsdb:headAppenderV2.appendFloat", "tsdb:headAppender.AppendSTZeroSample"} {
+		if p.TryFunc(fn) == nil {
+			continue
+		}
+		f := c.Fn(fn)
+		var lits []string
+		ast.Inspect(f.Body, func(x ast.Node) bool {
+			cl, ok := x.(*ast.CompositeLit)
+			if ok && nodeText(cl.Type) == "record.RefSample" {
+				lits = append(lits, nodeText(cl))
+			}
+			return true
+		})
+		for _, l := range lits {
+			constV := strings.Contains(l, "V: 0.0") || strings.Contains(l, "V: 0}")
+			if constV {
+				c.Pass("R8", f.Where(), "queues a constant, non-stale float ("+l+")", "")
+				continue
+			}
+			n++
+			if p.TryFunc("tsdb:headAppenderBase.noteStaleFloat") == nil {
+				c.Fail("R8", f.Where(), "a float that may be a staleness marker is registered for the batch logic", p.Pos(f.Body.Pos()), "")
+				continue
+			}
+			f.Dom("R8", p.Call("tsdb:headAppenderBase.getCurrentBatch"), p.Call("tsdb:headAppenderBase.noteStaleFloat"))
+			f.Has("R8", p.Call("tsdb:headAppenderBase.noteStaleFloat"), 1)
+		}
+	}
+	c.Check("R8", "tsdb", "append paths that can queue a stale float (2)", n == 2, "", fmt.Sprint(n))
+	if p.TryFunc("tsdb:headAppenderBase.noteStaleFloat") != nil {
+		ns := c.Fn("tsdb:headAppenderBase.noteStaleFloat")
+		c.Check("R8", ns.Where(), "registers the series as a float series in typesInBatch when the value is a staleness marker", strings.Contains(nodeText(ns.Body), "if value.IsStaleNaN(v) { a.typesInBatch[s] = stFloat }"), p.Pos(ns.Body.Pos()), nodeText(ns.Body))
+	} else {
+		c.Fail("R8", "tsdb:headAppenderBase", "a stale float is registered in typesInBatch (noteStaleFloat)", "", "commitFloats appends the converted marker after a histogram of the same series that was appended later: the marker is committed out of order and dropped")
+	}
 }
